@@ -39,11 +39,13 @@ def run(r, spec, rounds, inputs):
 
 
 # ---- build options: one-factor sweeps around a base configuration plus mixed combinations ----------------------------------------------------
-BASE = dict(print_timing=False, container='args', ret='tuple', io='list', dict=False)
+BASE = dict(print_timing=False, container='args', ret='tuple', io='list', dict=False, share=False, explicit=False)
 CONFIGS = [BASE] + [dict(BASE, print_timing=v) for v in (True, 1e9, 0.0)] + [dict(BASE, container=v) for v in ('list', 'tuple', 'append', 'call', 'copy')] \
-    + [dict(BASE, ret=v) for v in ('list', 'single')] + [dict(BASE, io=v) for v in ('tuple', 'single')] + [dict(BASE, dict=True)] \
-    + [dict(print_timing=True, container='append', ret='single', io='single', dict=True), dict(print_timing=1e9, container='copy', ret='list', io='tuple', dict=True),
-       dict(print_timing=True, container='call', ret='list', io='single', dict=False), dict(print_timing=False, container='tuple', ret='single', io='tuple', dict=True)]
+    + [dict(BASE, ret=v) for v in ('list', 'single')] + [dict(BASE, io=v) for v in ('tuple', 'single')] + [dict(BASE, dict=True), dict(BASE, share=True), dict(BASE, explicit=True)] \
+    + [dict(print_timing=True, container='append', ret='single', io='single', dict=True, share=True, explicit=True),
+       dict(print_timing=1e9, container='copy', ret='list', io='tuple', dict=True, share=False, explicit=True),
+       dict(print_timing=True, container='call', ret='list', io='single', dict=False, share=True, explicit=False),
+       dict(print_timing=False, container='tuple', ret='single', io='tuple', dict=True, share=True, explicit=True)]
 
 
 def nests(n):
@@ -113,11 +115,13 @@ def seed_value(rng, shapes, hd):
     return float(v) if sh == () else v.tolist()
 
 
-def new_values(rng, spec, only_sources=True):
+def new_values(rng, spec):
+    """new values for every source / pre-allocated signal: both signs, about 10% exact zeros"""
     out = {}
     for i, v in enumerate(spec['signals']):
         if v is not None:
-            out[i] = float(np.round(rng.uniform(0.3, 1.2), 3)) if np.ndim(v) == 0 else np.round(rng.uniform(0.3, 1.2, size=np.shape(v)), 3).tolist()
+            a = np.round(rng.uniform(-1.2, 1.2, size=np.shape(v)), 3) * (rng.random(size=np.shape(v)) > 0.1)
+            out[i] = float(a) if np.ndim(v) == 0 else a.tolist()
     return out
 
 
@@ -135,15 +139,15 @@ def template_rounds(rng, spec, seeds):
        'written to slices of pre-allocated signals incl. nested/column slices, two-output modules with partial seeds, dead branch + None-returning module + '
        'module without outputs + module without inputs, python-scalar signals, matrix signals, EinSum/ConcatSignal, overlapping slices of one base into one '
        'module) x 3 nestings (flat / grouped / deep with an empty nested network) x build options {print_timing False/True/number, Network built from '
-       'args/list/tuple/append/__call__/copy, modules returning tuple/list/bare value, signals passed as list/tuple/bare, library modules given as dicts}: '
-       '3 of 18 option sets per topology (rotating) [quick] / all 18 x 3 nestings [thorough]; per build 7 rounds = every non-empty subset of 3 seed '
+       'args/list/tuple/append/__call__/copy, modules returning tuple/list/bare value, signals passed as list/tuple/bare, library modules given as dicts, one shared SignalSlice object per slice or a fresh one per use, *args or explicit signatures}: '
+       '6 of 20 option sets per topology (rotating, each with one of the 3 nestings) [quick] / all 20 x 3 nestings [thorough]; per build 7 rounds = every non-empty subset of 3 seed '
        'places (whole signals, slices, intermediates, sources; set or add_sensitivity), new source values per round, response() repeated in every third round')
 def topologies(r, tier, seed):
     rng = np.random.default_rng(seed + 2)
     for t, (name, tp) in enumerate(TEMPLATES.items()):
         n = len(tp['nodes'])
         if tier == 'quick':
-            combos = [(CONFIGS[(3 * t + j * 7) % len(CONFIGS)], nests(n)[j]) for j in range(3)]
+            combos = [(CONFIGS[(6 * t + j) % len(CONFIGS)], nests(n)[j % 3]) for j in range(6)]
         else:
             combos = [(c, ne) for c in CONFIGS for ne in nests(n)]
         for cfg, ne in combos:
@@ -346,7 +350,7 @@ def random_case(rng, size):
     for _ in range(size):
         g.node()
     cfg = dict(print_timing=[False, False, True, 1e9][g.ri(4)], container=['args', 'list', 'tuple', 'append', 'call', 'copy'][g.ri(6)], ret=['tuple', 'list', 'single'][g.ri(3)],
-               io=['list', 'tuple', 'single'][g.ri(3)], dict=bool(g.ri(2)))
+               io=['list', 'tuple', 'single'][g.ri(3)], dict=bool(g.ri(2)), share=bool(g.ri(2)), explicit=bool(g.ri(2)))
     spec = dict(signals=g.signals, nodes=g.nodes, nest=g.nest(list(range(len(g.nodes)))), build=cfg)
     rounds = [dict(values={}, seeds=g.seeds(), twice=False), dict(values=new_values(rng, spec), seeds=g.seeds(), twice=bool(g.ri(2))), dict(values={}, seeds=g.seeds(), twice=False)]
     return spec, rounds
@@ -356,10 +360,10 @@ def random_case(rng, size):
        'None-returning, no-input and no-output modules; EinSum x4 expressions; ConcatSignal), inputs = whole signals or random slices (int, range, reversed, '
        'strided, integer array/list, row/column/block, nested) with a 30% chance of using one signal twice, outputs = new signals or slices (range, integer '
        'array, nested, column) of pre-allocated signals with untouched entries, random nesting depth <= 2 with empty nested networks, random build options; '
-       '3 rounds each (1-3 seeds on whole signals or slices of outputs/intermediates/sources, set/add; new values in round 2); 110 graphs [quick] / 1100 [thorough]')
+       '3 rounds each (1-3 seeds on whole signals or slices of outputs/intermediates/sources, set/add; new values in round 2); 300 graphs [quick] / 3000 [thorough]')
 def random_graphs(r, tier, seed):
     rng = np.random.default_rng(seed + 200)
-    for k in range(110 if tier == 'quick' else 1100):
+    for k in range(300 if tier == 'quick' else 3000):
         spec, rounds = random_case(rng, int(rng.integers(3, 10)))
         if not spec['nodes']:
             continue
